@@ -15,7 +15,8 @@ IMPORTS = "Require Import V.model.ClientRead V.model.SelfEnc."
 THEOREMS = ["chunk_get_authentic", "chunk_get_honest_accepted", "vault_signed_by_owner",
             "vault_highest_valid_counter", "vault_fails_without_authentic", "vault_honest_accepted",
             "vault_split_complete", "fetch_and_decrypt_authentic", "validly_signed_meaning",
-            "data_get_public_unforgeable", "injective_hash_exists", "client_kind_tags"]
+            "data_get_public_unforgeable", "injective_hash_exists", "client_kind_tags",
+            "error_carried_record_never_returned", "chunk_get_vs_record_key_unsound"]
 RULE = ("chunk_get: every entry of a reply catalogue (right content, other chunk, every kind tag 0..7 and "
         "invalid tags, junk / pad bodies, truncated values, the five network errors, split maps of chunks and "
         "of pads) for several requested contents; vault reads: every entry of a 16-entry pad catalogue "
